@@ -16,6 +16,7 @@ type faulty struct {
 	mu           sync.Mutex
 	failSync     map[storage.FileType]int // number of Syncs to fail per file type
 	failRemoveOf storage.FileType         // Remove of this type always fails while armed
+	failCreate   map[storage.FileType]int // number of Creates to fail per file type
 	armed        bool
 }
 
@@ -40,6 +41,13 @@ func (w *faultyWriter) Sync() error {
 }
 
 func (f *faulty) Create(fd storage.FileDesc) (storage.Writer, error) {
+	f.mu.Lock()
+	if n := f.failCreate[fd.Type]; f.armed && n > 0 {
+		f.failCreate[fd.Type] = n - 1
+		f.mu.Unlock()
+		return nil, errInjected
+	}
+	f.mu.Unlock()
 	w, err := f.Storage.Create(fd)
 	if err != nil {
 		return nil, err
